@@ -6,7 +6,7 @@ from pathlib import Path
 import histgen
 import vlib
 from vlib import Check
-from checks.exporter_common import run_histories, rng_for
+from checks.exporter_common import run_histories, rng_for, generated_histories
 
 TS_INVS = ["C17_Exact", "C17_Inverse", "C17_Refuse", "C17_Order"]
 
@@ -60,13 +60,17 @@ def run(tier):
         chk.samples.append({"trace_head": [json.loads(next(f)) for _ in range(3)]})
     chk.add_traces(merged, relevant={"C17"})
     shutil.rmtree(work, ignore_errors=True)
+    # blocks: every arrival order of timed (also exactly at the epoch), untimed, storable and unstorable records of the model
+    gen = generated_histories(chk, 3, "{3}", limit=None if tier == "thorough" else 2500)
+    gen = [h for h in gen if sum(1 for o in h["ops"] if o["op"] in ("qr", "mm") and "ts" in o.get("r", {})) >= 2]
+    m3 = run_histories(chk, gen, {"C17"}, label="c17g", sample=False)
     # blocks: out-of-order / untimed arrivals
     rng = rng_for(chk, 17)
     n = 40 if tier == "quick" else 600
     hs = [histgen.gen_history(rng, nops=rng.choice([10, 25]), comp="none", sizes=[2, 4, 10000], rot=False,
                               qr_mode=rng.choice(["sparse", "one", None])) for _ in range(n)]
     m2 = run_histories(chk, hs, {"C17"}, label="c17x", sample=False)
-    chk.distinct = merged["execs"] + m2["execs"]
+    chk.distinct = merged["execs"] + m2["execs"] + m3["execs"]
     return chk.finish()
 
 
